@@ -72,11 +72,30 @@ func (c *kase) rooted(name string) gschema.Schema {
 
 func (c *kase) Witness() string  { return c.Format + " :: " + c.Schema.String() }
 func (c *kase) RootType() string { return c.Unit.ID + "." + c.Schema.Objs[0].Name }
-func (c *kase) TwoPkg() bool     { return strings.HasSuffix(c.Format, "+q") }
-func (c *kase) ThreePkg() bool   { return strings.HasSuffix(c.Format, "+qr") }
-func (c *kase) Variant() bool    { return strings.HasSuffix(c.Format, boundsVariant) }
+func (c *kase) Reversed() bool   { return strings.HasSuffix(c.Format, reversedInputs) }
+func (c *kase) TwoPkg() bool {
+	return strings.HasSuffix(strings.TrimSuffix(c.Format, reversedInputs), "+q")
+}
+func (c *kase) ThreePkg() bool {
+	return strings.HasSuffix(strings.TrimSuffix(c.Format, reversedInputs), "+qr")
+}
+func (c *kase) Variant() bool { return strings.HasSuffix(c.Format, boundsVariant) }
 func (c *kase) BaseFormat() string {
-	return strings.TrimSuffix(strings.TrimSuffix(strings.TrimSuffix(c.Format, "+qr"), "+q"), boundsVariant)
+	return strings.TrimSuffix(strings.TrimSuffix(strings.TrimSuffix(strings.TrimSuffix(c.Format, reversedInputs), "+qr"), "+q"), boundsVariant)
+}
+
+// reversedInputs marks a multi-package case whose inputs are listed in the
+// opposite order in the pipeline configuration (q before p; r, q, p): the
+// order of the inputs is the order in which the packages reach the passes and
+// the jennies.
+const reversedInputs = "(rev)"
+
+func reverseInputs(inputYAML string) string {
+	l := strings.Split(inputYAML, "\n  ")
+	for i, j := 0, len(l)-1; i < j; i, j = i+1, j-1 {
+		l[i], l[j] = l[j], l[i]
+	}
+	return strings.Join(l, "\n  ")
 }
 
 // boundsVariant marks a rendering in which the numeric constraints of grammar
@@ -85,7 +104,8 @@ func (c *kase) BaseFormat() string {
 // operators of the IR occur in the space.
 const boundsVariant = "(>,<=)"
 
-var allFormats = []string{"jsonschema", "openapi", "cue", "jsonschema" + boundsVariant, "openapi" + boundsVariant, "cue" + boundsVariant, "openapi+q", "cue+q", "openapi+qr", "cue+qr"}
+var allFormats = []string{"jsonschema", "openapi", "cue", "jsonschema" + boundsVariant, "openapi" + boundsVariant, "cue" + boundsVariant, "openapi+q", "cue+q", "openapi+qr", "cue+qr",
+	"openapi+q" + reversedInputs, "cue+q" + reversedInputs, "openapi+qr" + reversedInputs, "cue+qr" + reversedInputs}
 
 func formatRank(f string) int {
 	for i, x := range allFormats {
@@ -102,6 +122,17 @@ func formatRank(f string) int {
 // (a failure that does not need the package split is reported there).
 func (c *kase) Parents() []string {
 	out := genrun.CaseParents(c.Schema, c.BaseFormat())
+	if c.Reversed() {
+		// a failure that does not depend on the order of the inputs is reported for the usual order
+		normal := strings.TrimSuffix(c.Format, reversedInputs)
+		out = append(out, normal+" :: "+c.Schema.String())
+		for _, r := range c.Schema.Reductions() {
+			out = append(out, c.Format+" :: "+r.String(), strings.Replace(c.Format, "cue", "openapi", 1)+" :: "+r.String())
+		}
+		if c.BaseFormat() == "cue" {
+			out = append(out, strings.Replace(c.Format, "cue", "openapi", 1)+" :: "+c.Schema.String())
+		}
+	}
 	if c.Variant() {
 		for _, r := range c.Schema.Reductions() {
 			for _, f := range gschema.Formats {
@@ -296,6 +327,19 @@ func twoPackageSchemas() []gschema.Schema {
 			gschema.Obj{Name: "QV", T: irgen.Disj(constant("low"), constant("high"))}),
 		gschema.WithSupport(gschema.Obj{Name: "Root", T: irgen.Struct1("f", false, ref("QV"))},
 			gschema.Obj{Name: "QV", T: irgen.Disj(constant("low"), constant("high"))}),
+		// two objects called Sh, one in each package, the one of p sorted AFTER the objects that refer to q's
+		gschema.WithSupport(gschema.Obj{Name: "Root", T: irgen.StructN([]irgen.Field{{Name: "a", Required: true}, {Name: "b", Required: false}}, []gschema.Term{ref("Sh"), ref("QSh")})},
+			gschema.Obj{Name: "Sh", T: irgen.Struct1("g", true, irgen.S("string"))}, gschema.Obj{Name: "QSh", T: irgen.Struct1("w", true, irgen.S("int64"))}),
+		gschema.WithSupport(gschema.Obj{Name: "Root", T: irgen.Struct1("b", true, ref("QSh"))},
+			gschema.Obj{Name: "Sh", T: irgen.Struct1("g", true, irgen.S("string"))}, gschema.Obj{Name: "QSh", T: irgen.Struct1("w", true, irgen.S("int64"))}),
+		gschema.WithSupport(gschema.Obj{Name: "Root", T: irgen.StructN([]irgen.Field{{Name: "a", Required: false}, {Name: "b", Required: false}}, []gschema.Term{irgen.Map(ref("Sh")), irgen.Array(ref("QSh"))})},
+			gschema.Obj{Name: "Sh", T: irgen.Struct1("g", true, irgen.S("string"))}, gschema.Obj{Name: "QSh", T: irgen.Enum("str")}),
+		gschema.WithSupport(gschema.Obj{Name: "Root", T: irgen.StructN([]irgen.Field{{Name: "a", Required: true}, {Name: "c", Required: false}}, []gschema.Term{ref("Al"), ref("Sh")})},
+			gschema.Obj{Name: "Al", T: irgen.Struct1("b", true, ref("QSh"))},
+			gschema.Obj{Name: "Sh", T: irgen.Struct1("g", true, irgen.S("string"))}, gschema.Obj{Name: "QSh", T: irgen.Struct1("w", true, irgen.S("int64"))}),
+		// an object named like its package (q.Q), not referred to by p
+		gschema.WithSupport(gschema.Obj{Name: "Root", T: irgen.Struct1("f", true, ref("S"))}, gschema.Obj{Name: "Q", T: irgen.Struct1("h", false, irgen.S("string"))}),
+		gschema.WithSupport(gschema.Obj{Name: "Root", T: irgen.Struct1("f", true, ref("Q"))}, gschema.Obj{Name: "Q", T: irgen.Struct1("h", false, ref("S"))}),
 		// two fields, local and foreign
 		gschema.WithSupport(gschema.Obj{Name: "Root", T: irgen.StructN([]irgen.Field{{Name: "a", Required: true}, {Name: "b", Required: false}}, []gschema.Term{ref("S"), irgen.Array(ref("P"))})}),
 	}
@@ -310,6 +354,12 @@ func twoPackageSchemas() []gschema.Schema {
 func place3(name string) string {
 	switch name {
 	case "S", "T", "E", "N", "A", "K", "P":
+		return "r"
+	}
+	switch name {
+	case "Q": // an object named like its package (the entry point the schema outputs infer)
+		return "q"
+	case "R":
 		return "r"
 	}
 	if len(name) > 1 && name[1] >= 'A' && name[1] <= 'Z' {
@@ -343,6 +393,10 @@ func threePackageSchemas() []gschema.Schema {
 			gschema.Obj{Name: "RA", T: irgen.Struct1("a", false, irgen.Array(ref("RB")))}, gschema.Obj{Name: "RB", T: irgen.Struct1("b", true, ref("E"))}),
 		gschema.WithSupport(gschema.Obj{Name: "Root", T: irgen.StructN([]irgen.Field{{Name: "f", Required: true}, {Name: "g", Required: false}}, []gschema.Term{ref("S"), ref("QX")})},
 			one("QX", true, ref("S"))),
+		// objects named like their package: q.Q (next to r, which has no such object), r.R
+		gschema.WithSupport(one("Root", true, ref("S")), gschema.Obj{Name: "Q", T: irgen.Struct1("h", true, ref("S"))}),
+		gschema.WithSupport(one("Root", true, ref("S")), one("QX", false, ref("S")), gschema.Obj{Name: "Q", T: irgen.Struct1("h", false, irgen.S("string"))}),
+		gschema.WithSupport(one("Root", true, ref("R")), one("QX", false, ref("S")), gschema.Obj{Name: "R", T: irgen.Struct1("b", false, irgen.S("string"))}),
 		// a foreign object that refers to itself
 		gschema.WithSupport(one("Root", false, ref("RNode")), one("QX", false, ref("RNode")),
 			gschema.Obj{Name: "RNode", T: irgen.StructN([]irgen.Field{{Name: "v", Required: true}, {Name: "next", Required: false}}, []gschema.Term{irgen.S("string"), ref("RNode")})}),
@@ -513,6 +567,8 @@ func buildCases(thorough bool) (cases []*kase, schemas []gschema.Schema, skipped
 					c.Targets = append(c.Targets, target{Pkg: place3(o.Name), Name: o.Name})
 				}
 				cases = append(cases, c)
+				ru := genrun.Unit{ID: u.ID + "v", Files: files, InputYAML: reverseInputs(in)}
+				cases = append(cases, &kase{Index: i, Schema: s, Format: f + reversedInputs, Unit: ru, Pkgs: threePkgs, HangSuspect: c.HangSuspect, Targets: c.Targets})
 			}
 		}
 		if i < nSingle {
@@ -543,6 +599,8 @@ func buildCases(thorough bool) (cases []*kase, schemas []gschema.Schema, skipped
 				}
 				u := genrun.Unit{ID: fmt.Sprintf("s%04d%sq", i, f[:1]), Files: files, InputYAML: in}
 				cases = append(cases, &kase{Index: i, Schema: s, Format: f, Unit: u, Pkgs: []string{"p", "q"}})
+				ru := genrun.Unit{ID: u.ID + "v", Files: files, InputYAML: reverseInputs(in)}
+				cases = append(cases, &kase{Index: i, Schema: s, Format: f + reversedInputs, Unit: ru, Pkgs: []string{"p", "q"}})
 			}
 		}
 	}
